@@ -57,52 +57,49 @@ def digits : Bytes → Nat × Bytes
   | [] => (0, [])
   | c :: cs => if digit c then let (n, r) := digits cs; (n + 1, r) else (0, c :: cs)
 
+def isExpChar (c : Nat) : Bool := c == 0x65 || c == 0x45
+def dropMinus (b : Bytes) : Bytes := match b with | 0x2D :: r => r | _ => b
+def dropSign (b : Bytes) : Bytes := match b with | s :: t => if s == 0x2B || s == 0x2D then t else s :: t | [] => []
+
+/-- `digits+` with the three-valued outcome: nothing but end of input is `more` -/
+def digits1 (b : Bytes) : R Unit :=
+  let (n, r) := digits b
+  if n == 0 then (if r.isEmpty then .more else .bad) else .ok () r
+
+/-- optional exponent `[eE] [+-]? [0-9]+` -/
+def expPart (r : Bytes) : R Unit :=
+  match r with
+  | e :: t => if isExpChar e then digits1 (dropSign t) else .ok () r
+  | [] => .ok () []
+
+/-- optional fraction `. [0-9]+` -/
+def fracStrict (r : Bytes) : R Unit :=
+  match r with
+  | 0x2E :: t => digits1 t
+  | _ => .ok () r
+
+def andThen (x : R Unit) (f : Bytes → R Unit) : R Unit :=
+  match x with
+  | .ok _ r => f r
+  | .more => .more
+  | .bad => .bad
+
 /-- RFC 8259 number: `-? (0 | [1-9][0-9]*) (. [0-9]+)? ([eE] [+-]? [0-9]+)?` -/
 def numStrict (b : Bytes) : R Unit :=
-  let b1 := match b with | 0x2D :: r => r | _ => b
-  match b1 with
+  match dropMinus b with
   | [] => .more
   | c :: cs =>
     if !digit c then .bad else
-    let afterInt : Option Bytes :=
-      if c == 0x30 then some cs else some (digits cs).2
-    match afterInt with
-    | none => .bad
-    | some r1 =>
-      let fracR : R Unit :=
-        match r1 with
-        | 0x2E :: r =>
-          let (n, r') := digits r
-          if n == 0 then (if r'.isEmpty then .more else .bad) else .ok () r'
-        | _ => .ok () r1
-      match fracR with
-      | .bad => .bad
-      | .more => .more
-      | .ok _ r2 =>
-        match r2 with
-        | e :: r =>
-          if e == 0x65 || e == 0x45 then
-            let r' := match r with | s :: t => if s == 0x2B || s == 0x2D then t else s :: t | [] => []
-            let (n, r'') := digits r'
-            if n == 0 then (if r''.isEmpty then .more else .bad) else .ok () r''
-          else .ok () r2
-        | [] => .ok () []
+    let afterInt := if c == 0x30 then cs else (digits cs).2
+    andThen (fracStrict afterInt) expPart
 
 /-- the scanner's liberal number: `-? ( [0-9]+ .? [0-9]* | . [0-9]+ ) ([eE] [+-]? [0-9]+)?` -/
 def numRelaxed (b : Bytes) : R Unit :=
-  let b1 := match b with | 0x2D :: r => r | _ => b
+  let b1 := dropMinus b
   let (n1, r1) := digits b1
   let (dot, r2) := match r1 with | 0x2E :: r => (true, r) | _ => (false, r1)
   let (n2, r3) := if dot then digits r2 else (0, r2)
-  if n1 + n2 == 0 then (if r3.isEmpty then .more else .bad) else
-  match r3 with
-  | e :: r =>
-    if e == 0x65 || e == 0x45 then
-      let r' := match r with | s :: t => if s == 0x2B || s == 0x2D then t else s :: t | [] => []
-      let (n, r'') := digits r'
-      if n == 0 then (if r''.isEmpty then .more else .bad) else .ok () r''
-    else .ok () r3
-  | [] => .ok () []
+  if n1 + n2 == 0 then (if r3.isEmpty then .more else .bad) else expPart r3
 
 def lit (word : Bytes) (b : Bytes) : R Unit :=
   if word.isPrefixOf b then .ok () (b.drop word.length)
